@@ -121,9 +121,11 @@ link resets included), then housekeeping runs again at `t2` with `t1 ≤ t2 ≤ 
 connected and not timed out at both ticks, then its latest keepalive send times `k1` (after tick 1)
 and `k2` (after tick 2) satisfy `t1 − k1 < 1000`, `t2 − k2 < 1000` and `k2 − k1 < 1000 + D`; either no
 keepalive was due (`k2 = k1`) or `k2 = t2` and the frame is on tick 2's wire.  With the 1 s
-housekeeping period (`D = 1000`) the gap is below two periods. -/
+housekeeping period (`D = 1000`) the gap is below two periods.
+`hnr`: over events / runs that keep the link set (no `Ev.reload`); a reload keeps the whole record of every retained link
+(`Props/SysReload.lean: reload_frame`) and the theorem applies again from the state after it. -/
 theorem C14_cadence_two_ticks (s : Sys F) (t1 t2 D j : Nat) (evs : List Ev) (l m : FLink F)
-    (hevs : ∀ e ∈ evs, KaTrace.notHk e = true)
+    (hevs : ∀ e ∈ evs, KaTrace.notHk e = true) (hnr : NoReload evs)
     (h12 : t1 ≤ t2) (hD : t2 - t1 ≤ D)
     (hl : s.links[j]? = some l) (hlc : l.core.connected = true) (hlt : l.isTimedOut t1 = false)
     (hm : (KaTrace.runEvs (step s (.hk t1)).1 evs).links[j]? = some m)
@@ -138,7 +140,7 @@ theorem C14_cadence_two_ticks (s : Sys F) (t1 t2 D j : Nat) (evs : List Ev) (l m
   obtain ⟨l1, k1, hl1, -, hk1, hlt1, -⟩ := C14_cadence s t1 j l hl hlc hlt
   obtain ⟨l2, k2, hl2, -, hk2, hlt2, hch⟩ :=
     C14_cadence (KaTrace.runEvs (step s (.hk t1)).1 evs) t2 j m hm hmc hmt
-  have hfr := KaTrace.runEvs_frame (step s (.hk t1)).1 evs hevs
+  have hfr := KaTrace.runEvs_frame (step s (.hk t1)).1 evs hevs hnr
   obtain ⟨a, ha, hfa⟩ := hfr.get' hm
   have ha' : (handleHousekeeping s t1).1.links[j]? = some a := ha
   rw [hl1] at ha'; cases ha'
@@ -554,11 +556,14 @@ connected and not timed out at both ticks, there are send times `k1 ≤ k2` with
 `k1 ≤ t1 < k1 + 1000`, `k2 ≤ t2 < k2 + 1000`, `k2 < k1 + 1000 + D`, and the link's keepalive FRAMES sent at
 `k1` and at `k2` are both in the wire history of the run; `k2` is `k1` (no keepalive was due) or `t2`.
 With the 1 s housekeeping period (`D = 1000`): consecutive keepalive frames on the link's wire are less
-than 2000 ms = two housekeeping periods apart (`C14_wire_cadence_two_periods`). -/
+than 2000 ms = two housekeeping periods apart (`C14_wire_cadence_two_periods`).
+`hnr` (on `mid` only; `pre` may contain reloads): over events / runs that keep the link set (no `Ev.reload`); a reload
+keeps the whole record of every retained link (`Props/SysReload.lean: reload_frame`) and the theorem applies again
+from the state after it. -/
 theorem C14_wire_cadence (s0 : Sys F) (pre mid : List Ev) (t1 t2 D j : Nat) (l m : FLink F)
     (h0 : ∀ l ∈ s0.links, l.lastKeepaliveSent = none)
     (hpre : ∀ e ∈ pre, ∀ t, e = .hk t → t ≤ t1)
-    (hmid : ∀ e ∈ mid, notHk e = true)
+    (hmid : ∀ e ∈ mid, notHk e = true) (hnr : NoReload mid)
     (h12 : t1 ≤ t2) (hD : t2 - t1 ≤ D)
     (hl : (runEvs s0 pre).links[j]? = some l) (hlc : l.core.connected = true)
     (hlt : l.isTimedOut t1 = false)
@@ -573,8 +578,8 @@ theorem C14_wire_cadence (s0 : Sys F) (pre mid : List Ev) (t1 t2 D j : Nat) (l m
   -- the events between the ticks keep or clear the stamp and keep the conn id
   have hrun2 : runEvs s0 ((pre ++ [.hk t1]) ++ mid) = runEvs (runEvs s0 (pre ++ [.hk t1])) mid :=
     runEvs_append _ _ _
-  have hfr := runEvs_frame (runEvs s0 (pre ++ [.hk t1])) mid hmid
-  have hidm := runEvs_id (runEvs s0 (pre ++ [.hk t1])) mid
+  have hfr := runEvs_frame (runEvs s0 (pre ++ [.hk t1])) mid hmid hnr
+  have hidm := runEvs_id (runEvs s0 (pre ++ [.hk t1])) mid hnr
   rw [← hrun2] at hfr hidm
   have hfm : LksFrame l1 m := hfr.2 j l1 m hl1 hm
   have hmid' : m.core.connId = l.core.connId :=
@@ -614,11 +619,14 @@ theorem C14_wire_cadence (s0 : Sys F) (pre mid : List Ev) (t1 t2 D j : Nat) (l m
   · rw [hmid'] at hf2; exact hf2
 
 /-- The literal reading of the property: housekeeping period 1000 ms, so two consecutive keepalive
-frames on a live link's wire are less than 2000 ms (two periods) apart. -/
+frames on a live link's wire are less than 2000 ms (two periods) apart.
+`hnr` (on `mid` only; `pre` may contain reloads): over events / runs that keep the link set (no `Ev.reload`); a reload
+keeps the whole record of every retained link (`Props/SysReload.lean: reload_frame`) and the theorem applies again
+from the state after it. -/
 theorem C14_wire_cadence_two_periods (s0 : Sys F) (pre mid : List Ev) (t1 t2 j : Nat) (l m : FLink F)
     (h0 : ∀ l ∈ s0.links, l.lastKeepaliveSent = none)
     (hpre : ∀ e ∈ pre, ∀ t, e = .hk t → t ≤ t1)
-    (hmid : ∀ e ∈ mid, notHk e = true)
+    (hmid : ∀ e ∈ mid, notHk e = true) (hnr : NoReload mid)
     (h12 : t1 ≤ t2) (hD : t2 - t1 ≤ 1000)
     (hl : (runEvs s0 pre).links[j]? = some l) (hlc : l.core.connected = true)
     (hlt : l.isTimedOut t1 = false)
@@ -628,7 +636,7 @@ theorem C14_wire_cadence_two_periods (s0 : Sys F) (pre mid : List Ev) (t1 t2 j :
       FrameAt (F := F) (wireTrace s0 (((pre ++ [.hk t1]) ++ mid) ++ [.hk t2])) l.core.connId k1 ∧
       FrameAt (F := F) (wireTrace s0 (((pre ++ [.hk t1]) ++ mid) ++ [.hk t2])) l.core.connId k2 := by
   obtain ⟨k1, k2, a1, -, a3, a4, a5, a6, -, a8, a9⟩ :=
-    C14_wire_cadence s0 pre mid t1 t2 1000 j l m h0 hpre hmid h12 hD hl hlc hlt hm hmc hmt
+    C14_wire_cadence s0 pre mid t1 t2 1000 j l m h0 hpre hmid hnr h12 hD hl hlc hlt hm hmc hmt
   exact ⟨k1, k2, a5, by omega, a1, a3, a4, a8, a9⟩
 
 end history
@@ -683,8 +691,11 @@ open Srtla.SysDir
    `now − sent`.
 
 So a client datagram, a flush, a configuration event, `mark_for_recovery` (failed send, REG_ERR), REG3, a NAK,
-an SRTLA ACK never feed or reset the filter. -/
-theorem C14_rtt_changes_only_by_sys (s : Sys F) (e : Ev) (j : Nat) (l l' : FLink F)
+an SRTLA ACK never feed or reset the filter.
+`hnr`: over events / runs that keep the link set (no `Ev.reload`); a reload keeps the whole record of every retained link
+(`Props/SysReload.lean: reload_frame`) and the theorem applies again from the state after it.  (For a reload itself: a retained link keeps its tracker, a fresh link starts
+with `RttTracker.new`; the per-link statement that covers it is `C14_kalman_psd_step`.) -/
+theorem C14_rtt_changes_only_by_sys (s : Sys F) (e : Ev) (hnr : e.isReload = false) (j : Nat) (l l' : FLink F)
     (hl : s.links[j]? = some l) (hl' : (step s e).1.links[j]? = some l') :
     SameFilter l.rtt l'.rtt ∨
     ((∃ now, e = .hk now) ∧ SameFilter RttTracker.new l'.rtt) ∨
@@ -696,10 +707,11 @@ theorem C14_rtt_changes_only_by_sys (s : Sys F) (e : Ev) (j : Nat) (l l' : FLink
       ∃ a sent, Codec.parseSrtAck data = .ok (some a) ∧ l.core.highestAcked < toI32 a ∧
         logFind l.core.log (toI32 a) = some sent ∧ 0 < now - sent ∧ now - sent ≤ 10000 ∧
         l'.rtt = l.rtt.updateEstimate (now - sent) now) := by
-  obtain ⟨l'', h1, hrun⟩ := (step_run s e).2 j l hl
+  obtain ⟨l'', h1, hrun⟩ := (step_run s e hnr).2 j l hl
   rw [hl'] at h1
   cases h1
   cases e with
+  | reload rnow raddrs routs => cases hnr
   | uplink now cid data =>
     rcases C14_rtt_changes_only_by s cid data now j l l' hl hl' with (h | h | h) | h | h
     · exact .inl (.of_eq h)
@@ -769,8 +781,12 @@ In every other case (first disjunct) FIVE filter fields after the event equal th
 estimate `estimated`, and the smoothed value `get_smooth_rtt_ms`.  The comparison is of these five fields, not of
 the whole tracker: jitter, the fast / slow windows, `masd`, `avg_delta` are also untouched (`SameFilter` in
 `C14_rtt_changes_only_by_sys` says so) but are not restated here, and the probe bookkeeping (`waiting`,
-`last_keepalive_sent_ms`) may move. -/
-theorem C14_sample_only_from_echo_sys (s : Sys F) (pre : List Ev) (e : Ev) (j : Nat) (l l' : FLink F)
+`last_keepalive_sent_ms`) may move.
+`hnr` (on the last event `e` only; `pre` may contain reloads): over events / runs that keep the link set (no
+`Ev.reload`); a reload keeps the whole record of every retained link (`Props/SysReload.lean: reload_frame`) and the theorem
+applies again from the state after it. -/
+theorem C14_sample_only_from_echo_sys (s : Sys F) (pre : List Ev) (e : Ev) (hnr : e.isReload = false)
+    (j : Nat) (l l' : FLink F)
     (hl : (Sys.run s pre).1.links[j]? = some l) (hl' : (Sys.run s (pre ++ [e])).1.links[j]? = some l') :
     (l'.rtt.kalman = l.rtt.kalman ∧ l'.rtt.lastRttMeasMs = l.rtt.lastRttMeasMs ∧ l'.rtt.rttMin = l.rtt.rttMin ∧
       l'.rtt.estimated = l.rtt.estimated ∧ l'.rtt.smooth = l.rtt.smooth) ∨
@@ -785,7 +801,7 @@ theorem C14_sample_only_from_echo_sys (s : Sys F) (pre : List Ev) (e : Ev) (j : 
         l'.rtt = l.rtt.updateEstimate (now - sent) now) := by
   have hs : (Sys.run s (pre ++ [e])).1 = (step (Sys.run s pre).1 e).1 := by rw [run_append]; rfl
   rw [hs] at hl'
-  rcases C14_rtt_changes_only_by_sys _ e j l l' hl hl' with h | h | h | h
+  rcases C14_rtt_changes_only_by_sys _ e hnr j l l' hl hl' with h | h | h | h
   · exact .inl h.fields
   · exact .inr (.inl h)
   · exact .inr (.inr (.inl h))
@@ -814,13 +830,22 @@ reset to the fresh filter, or fed ONE sample through `update_estimate` — and e
 theorem C14_kalman_psd_step (s : Sys F) (ev : Ev) (h : ∀ l ∈ s.links, PSD l.rtt.kalman) :
     ∀ l' ∈ (@step F 𝕊 s ev).1.links, PSD l'.rtt.kalman := by
   intro l' hl'
+  cases hnr : ev.isReload with
+  | true =>
+    cases ev with
+    | reload rnow raddrs routs =>
+      rcases @mem_reload F 𝕊 s rnow raddrs routs l' hl' with ⟨h1, -⟩ | ⟨id, a, -, -, rfl⟩
+      · exact h l' h1
+      · exact KalmanField.psd_tracker_new e
+    | _ => cases hnr
+  | false =>
   obtain ⟨j, hj, hget⟩ := List.getElem_of_mem hl'
-  have hlen := (@Hk.step_link F 𝕊 s ev).2.1
+  have hlen := (@Hk.step_link F 𝕊 s ev hnr).2.1
   have hj' : j < s.links.length := by omega
   have hl : s.links[j]? = some s.links[j] := List.getElem?_eq_getElem hj'
   have hl'' : (@step F 𝕊 s ev).1.links[j]? = some l' := by rw [List.getElem?_eq_getElem hj, hget]
   have hp := h _ (List.getElem_mem hj')
-  rcases @C14_rtt_changes_only_by_sys F 𝕊 s ev j _ l' hl hl'' with hs | ⟨-, hs⟩ | hs | hs
+  rcases @C14_rtt_changes_only_by_sys F 𝕊 s ev hnr j _ l' hl hl'' with hs | ⟨-, hs⟩ | hs | hs
   · rw [(@SysDir.SameFilter.fields F 𝕊 _ _ hs).1]; exact hp
   · rw [(@SysDir.SameFilter.fields F 𝕊 _ _ hs).1]; exact KalmanField.psd_tracker_new e
   · obtain ⟨now, cid, data, -, -, -, -, ts, -, -, -, hr⟩ := hs
@@ -962,10 +987,10 @@ example :
       fun l => (l.rtt.lastRttMeasMs, l.rtt.waiting, l.core.connected)) = [(0, false, false)] := by
   decide +kernel
 
-example (pre : List Ev) (e : Ev) (j : Nat) (l l' : FLink Int)
+example (pre : List Ev) (e : Ev) (hnr : e.isReload = false) (j : Nat) (l l' : FLink Int)
     (hl : (@Sys.run Int Select.fixScalar exSys pre).1.links[j]? = some l)
     (hl' : (@Sys.run Int Select.fixScalar exSys (pre ++ [e])).1.links[j]? = some l') :=
-  @C14_sample_only_from_echo_sys Int Select.fixScalar exSys pre e j l l' hl hl'
+  @C14_sample_only_from_echo_sys Int Select.fixScalar exSys pre e hnr j l l' hl hl'
 
 /-- A non-empty state over `ℚ`: two fresh links (conn ids 1, 2). -/
 noncomputable def exSysQ : Sys ℚ :=
